@@ -965,7 +965,7 @@ func (c *ExprCtx) call(x *ast.CallExpr) TV {
 			return TV{C: constant.MakeBool(false)}
 		}
 		f := c.w.st.declare("dyn_type", []string{sortU}, sortU)
-		tc := c.w.st.declare("type_"+sanitize(tn), nil, sortU)
+		tc := c.w.typeConst(c.st, tn)
 		return TV{V: VBool{T: mkEq(app(f, iv.U), tc)}, T: boolT}
 	}
 	if c.cs.GhostFields[name] && len(x.Args) == 1 {
